@@ -78,6 +78,7 @@ Devs(cls) ==
           <<"use_stochastic_rounding", "b:1">>, <<"scale_axis", "i:0">>, <<"qnoise_factor", "f:0.5">>, <<"use_ste", "b:0">>,
           <<"use_variables", "b:1">>, <<"elements_per_scale", "i:2">>, <<"min_po2_exponent", "i:1">>, <<"max_po2_exponent", "i:-3">>,
           <<"scale_axis", "l:0 1">>, <<"elements_per_scale", "l:2 3">>, <<"post_training_scale", "a:0.5">>}
+          \* (an array-valued constant alpha is not in quantized_bits' domain: its constructor compares alpha with ==)
     [] cls = "bernoulli" -> {<<"alpha", "f:2.0">>, <<"temperature", "f:1.5">>, <<"use_real_sigmoid", "b:0">>}
     [] cls = "ternary" -> {<<"alpha", "f:2.0">>, <<"threshold", "f:0.75">>, <<"threshold", "f:0.0">>, <<"use_stochastic_rounding", "b:1">>,
                            <<"number_of_unrolls", "i:1">>}
@@ -85,7 +86,7 @@ Devs(cls) ==
                                       <<"use_real_sigmoid", "b:0">>, <<"number_of_unrolls", "i:1">>}
     [] cls = "binary" -> {<<"use_01", "b:1">>, <<"alpha", "f:2.0">>, <<"use_stochastic_rounding", "b:1">>, <<"scale_axis", "i:0">>,
                           <<"elements_per_scale", "i:2">>, <<"min_po2_exponent", "i:1">>, <<"max_po2_exponent", "i:-3">>,
-                          <<"scale_axis", "l:0 1">>, <<"elements_per_scale", "l:2 3">>}
+                          <<"scale_axis", "l:0 1">>, <<"elements_per_scale", "l:2 3">>, <<"alpha", "v:0.5 2.0 1.0 0.25 1.5 4.0">>}
     [] cls = "stochastic_binary" -> {<<"alpha", "f:2.0">>, <<"temperature", "f:1.5">>, <<"use_real_sigmoid", "b:0">>}
     [] cls = "quantized_relu" ->
          {<<"bits", "i:3">>, <<"integer", "i:2">>, <<"use_sigmoid", "i:1">>, <<"negative_slope", "f:0.25">>,
